@@ -104,6 +104,11 @@ impl Guard16 {
         self.buf[..self.start].iter().all(|&b| b == CANARY16)
             && self.buf[self.start + self.len..].iter().all(|&b| b == CANARY16)
     }
+    /// For a buffer made by `from` that a function may modify in place.
+    pub fn src_intact(&self) -> bool {
+        self.buf[..self.start].iter().all(|&b| b == CANARY16)
+            && self.buf[self.start + self.len..].iter().all(|&b| b == 0xDCA0)
+    }
 }
 
 /// Garbage bytes for a plain byte sink. `fill` 0..=3 are constant patterns,
